@@ -3,6 +3,7 @@
     our own. *)
 From Coq Require Import ZArith List.
 From Copia Require Import Model.Checksum Model.Delta.
+From Copia Require Model.Hub Model.HubExec.
 Import ListNotations.
 Require Extraction.
 Require Import ExtrOcamlBasic.
@@ -28,4 +29,5 @@ Extraction "model.ml"
   frc_new frc_roll frc_push frc_digest fcount
   rc_new_ck rc_roll_ck rc_push_ck frc_new_ck frc_roll_ck frc_push_ck
   spec_digest_exec sums
-  m_signature m_delta m_patch m_greedy lits out_len.
+  m_signature m_delta m_patch m_greedy lits out_len
+  HubExec.hub_exec.
